@@ -1,5 +1,6 @@
 import GoRes.Model.StoreMap
 import GoRes.Lemmas.StoreMap
+import GoRes.Model.Lock
 /-! # C11 — stores behave like a per-id linearizable map with exact change callbacks
 
 The sequential core: every operation of a transaction on an id, for every history. (That
@@ -100,5 +101,49 @@ theorem reads_own_writes (s : St V) (hd : IdsDistinct s) (id : Bytes) (v : V) (c
   refine ⟨?_, ?_, ?_⟩ <;> intro h <;> simp only [exec] at h <;> (repeat' split at h) <;>
     simp only [Prod.mk.injEq, reduceCtorEq, false_and, true_and] at h <;>
     obtain ⟨_, rfl⟩ := h <;> simp [exec, vget_vset, vget_vdel]
+
+
+/-! ## the per-id lock
+
+`Read`/`Write` take the id's read/write lock until `Close`. -/
+
+open GoRes.Lock in
+/-- **while a transaction on an id is open no write transaction on that id makes progress** -/
+theorem write_excluded_while_open (l : L) (h : isOpen l = true) : step l .lock = none := by
+  simp only [isOpen] at h
+  simp [step, h]
+
+open GoRes.Lock in
+/-- a writer and readers never hold the lock together, in any reachable state -/
+theorem writer_alone (acts : List Act) (l : L) (h : Lock.run {} acts = some l) : l.writer = true → l.readers = 0 := by
+  have gen : ∀ (acts : List Act) (l0 l : L), (l0.writer = true → l0.readers = 0) → Lock.run l0 acts = some l →
+      (l.writer = true → l.readers = 0) := by
+    intro acts
+    induction acts with
+    | nil => intro l0 l h0 hr; simp [Lock.run] at hr; subst hr; exact h0
+    | cons a as ih =>
+      intro l0 l h0 hr
+      simp only [Lock.run] at hr
+      cases hs : step l0 a with
+      | none => simp [hs] at hr
+      | some l1 =>
+        simp only [hs] at hr
+        refine ih l1 l ?_ hr
+        cases a <;> simp only [step] at hs <;> split at hs <;> simp at hs <;> subst hs <;> simp_all
+  exact gen acts {} l (by simp) h
+
+open GoRes.Lock in
+/-- what the correspondence run observes (`excl`): a contender on the id of an open transaction
+is granted only if both are readers; on badgerstore other ids are never affected -/
+theorem grants (heldWrite contWrite : Bool) :
+    grantedBadger heldWrite contWrite true = (!heldWrite && !contWrite) ∧
+    grantedBadger heldWrite contWrite false = true ∧
+    (grantedBadger heldWrite contWrite true =
+      (match step (if heldWrite then { writer := true } else { readers := 1 }) (if contWrite then .lock else .rlock) with
+       | some _ => true | none => false)) := by
+  cases heldWrite <;> cases contWrite <;> simp [grantedBadger, step]
+
+example : GoRes.Lock.run {} [.rlock, .rlock, .runlock, .runlock, .lock, .unlock] = some {} := by decide
+example : GoRes.Lock.run {} [.rlock, .lock] = none := by decide
 
 end GoRes.Props.C11
